@@ -12,6 +12,10 @@ clauses (names as they appear in `margins` / violations)
                       None conserves P and L (bounds above); ('linear',n): |P| <= (f+1e-12) scale on every row after the first
                       removal AND L unchanged (bound of L-conservation + f scale); ('angular',n): P and L both vanish;
                       f = 1e-12 + 16 eps_mach cond(I)                                                   (a)
+  continue-*          run A -> state changed without an MD step (switch to S1 + esdriver call | geometry displaced + esdriver call |
+                      geometry displaced + force = None) -> run B on the SAME Molecule: all row clauses on run B incl. vv-x / vv-v
+                      with ITS stored forces, step 0 = the carried state (1e-15), coordinates / velocities / Ek+Ep equal to a
+                      fresh Molecule started from the same (x, v) on the same surface (1e-7), order ratio of B in [3, 5.5]
   reversal-x/-v       restart from (x_N, -v_N) for N steps returns to (x_0, -v_0): 1e-7 A / 1e-8 A/fs  (b)
   order               ||x_dt - x_dt/2|| / ||x_dt/2 - x_dt/4|| in [3, 5.5] at the common end time  (c)
   energy-std-scaling  std of E(t)-E(0), E=Ek+Ep, on the common time grid shrinks by [2.8, 5.6] per halving of dt   (d)
@@ -50,7 +54,7 @@ ASSUMPTIONS = ["float64 CPU, scf_eps 1e-10 so that SCF noise (<=2e-7 eV/A in for
                "velocity-Verlet recurrence clause relies on docs/source/bomd.rst naming the integrator",
                "atomic masses of the shipped table are the property's given"]
 REQUIRED_MONITORS = ["md_runs", "rows_checked", "order_ratios", "energy_ratios", "reversal_pairs", "single_points",
-                     "constants_checked", "molid_subset_files", "momentum_mode_files", "net_L_files", "net_P_files"]
+                     "constants_checked", "molid_subset_files", "momentum_mode_files", "net_L_files", "net_P_files", "continuations"]
 CASE_TIMEOUT = 1500.0
 BUDGET_S = {"quick": 200, "thorough": 1700}
 
@@ -110,6 +114,13 @@ def gen_cases(tier, seed):
                         excited=True))
         fam.append(dict(mols=["H2O"], method="AM1", dts=[0.2, 0.1, 0.05], t_end=4.0, reuse_P=False, remove_com=None,
                         excited=True))
+        # CH4 has 3-fold degenerate orbitals (orbital tracking permutations incl. 3-cycles): one dt only, i.e. no scaling clause
+        # (Jahn-Teller cusps of the lowest root); what is judged is Ep / forces against cold single points every 2nd row
+        # (hot, nearly tetrahedral replicas in one homogeneous batch: the t2 / t2* levels cross repeatedly once the atoms move)
+        fam.append(dict(mols=["CH4"] * 8, method="AM1", dts=[0.25], t_end=15.0, reuse_P=True, remove_com=None, excited=True, sp_every=3,
+                        T=2000.0, sigma=[0.003, 0.01, 0.03]))
+        fam.append(dict(mols=["CH4"] * 6, method="PM3", dts=[0.25], t_end=10.0, reuse_P=False, remove_com=None, excited=True, sp_every=3,
+                        T=1500.0, sigma=[0.003, 0.01]))
         rev = []
         for mols, method in ((["H2O"], "AM1"), (["CH2O"], "PM3"), (["NH3", "CH2O"], "AM1"), (["CH3OH"], "MNDO"),
                              (["CH4", "H2O"], "AM1"), (["HCN"], "AM1")):
@@ -126,7 +137,8 @@ def gen_cases(tier, seed):
                 if len(mols) > 1 and len(fresh) % 3:
                     fresh[-1]["molid"] = [[1], [1, 0], [2, 0]][len(fresh) % 3 if len(mols) > 2 else len(fresh) % 2]
     for f in fam:
-        f.update(kind="family", T=300.0, geom_seed=s())
+        f.setdefault("T", 300.0)
+        f.update(kind="family", geom_seed=s())
         cases.append(f)
     for r in rev:
         r.update(kind="reversal", T=300.0, geom_seed=s())
@@ -134,6 +146,17 @@ def gen_cases(tier, seed):
     for f in fresh:
         f.update(kind="fresh", T=300.0, geom_seed=s(), md_seed=int(g.integers(0, 10 ** 6)))
         cases.append(f)
+    cont = [dict(mol="CH2O", method="AM1", mod="switch-state", dtA=0.2, nA=4, dts=[0.4, 0.2, 0.1], t_end=1.6),
+            dict(mol="H2O", method="AM1", mod="displace-force-none", dtA=0.2, nA=5, dts=[0.2, 0.1, 0.05], t_end=2.0)]
+    if tier != "quick":
+        cont += [dict(mol="H2O", method="PM3", mod="displace-esdriver", dtA=0.5, nA=6, dts=[0.2, 0.1, 0.05], t_end=4.0),
+                 dict(mol="NH3", method="AM1", mod="displace-force-none", dtA=0.2, nA=8, dts=[0.4, 0.2, 0.1], t_end=4.0),
+                 dict(mol="CH2O", method="AM1", mod="switch-state", dtA=0.5, nA=8, dts=[0.2, 0.1, 0.05], t_end=3.0),
+                 dict(mol="H2O", method="AM1", mod="switch-state", dtA=0.2, nA=6, dts=[0.2, 0.1, 0.05], t_end=2.0),
+                 dict(mol="CH3OH", method="MNDO", mod="displace-esdriver", dtA=0.2, nA=5, dts=[0.4, 0.2, 0.1], t_end=4.0)]
+    for c_ in cont:
+        c_.update(kind="continue", T=300.0, geom_seed=s())
+        cases.append(c_)
     mom = [dict(mols=["H2O", "CH4"], method="AM1", variant="net-angular", dt=0.5, n=8),
            dict(mols=["NH3"], method="PM3", variant="net-linear", dt=0.5, n=8)]
     if tier != "quick":
@@ -159,12 +182,20 @@ def _cost(c):
         return c["n"]
     if c["kind"] == "momentum":
         return c["n"] * len(c["modes"])
+    if c["kind"] == "continue":
+        return (sum(c["t_end"] / dt for dt in c["dts"]) + 3 * c["nA"]) * (2.5 if c["mod"] == "switch-state" else 1.0)
     return 0
 
 
 # ---------------------------------------------------------------------------------------
 # worker side
 # ---------------------------------------------------------------------------------------
+def _mx(values):
+    """maximum that propagates NaN (python's max() silently skips it)."""
+    a = np.asarray(list(values), dtype=float)
+    return float(np.max(a)) if a.size else 0.0
+
+
 def _settings(case):
     from vlib import run
 
@@ -182,7 +213,8 @@ def _system(case):
     mols = []
     for name in case["mols"]:
         Z, X, q, m = gen.molecule(name)
-        X = gen.distort(X, g, sigma=0.03)
+        sig = case.get("sigma", 0.03)
+        X = gen.distort(X, g, sigma=sig if not isinstance(sig, list) else sig[len(mols) % len(sig)])
         X = X @ gen.generic_rotation(X, g).T
         mols.append((Z, X))
     S, C = gen.pad_batch(mols)
@@ -274,9 +306,9 @@ def _check_run(acc, h, Zr, dt, nsteps, remove_com, t_total, tag):
     # (a) conservation
     PL = [md.momenta(mm, x[s_], v[s_]) for s_ in range(len(x))]
     sc = [md.momentum_scales(mm, x[s_], v[s_]) for s_ in range(len(x))]
-    ps, ls = max(a for a, _ in sc), max(b for _, b in sc)
-    dP = max(np.abs(p[0] - PL[0][0]).max() for p in PL)
-    dL = max(np.abs(p[1] - PL[0][1]).max() for p in PL)
+    ps, ls = _mx(a for a, _ in sc), _mx(b for _, b in sc)
+    dP = _mx(np.abs(p[0] - PL[0][0]).max() for p in PL)
+    dL = _mx(np.abs(p[1] - PL[0][1]).max() for p in PL)
     rsum = float(np.linalg.norm(x[0] - md.com(mm, x[0]), axis=1).sum())
     mech = None
     tolL = TOL_L * ls + 2e3 * EPS * md.REF_ACC_SCALE * t_total * rsum
@@ -302,6 +334,9 @@ def _check_run(acc, h, Zr, dt, nsteps, remove_com, t_total, tag):
     acc.upd("Ek-row-live", np.abs(ek_amu * live["KINETIC_ENERGY_SCALE"] - Ek).max() / sE, TOL_ROW_LIVE, {"run": tag})
     acc.upd("Ek-row-codata", np.abs(ek_amu * md.REF_KE_SCALE - Ek).max() / sE, TOL_ROW_REF, {"run": tag})
     sT = max(np.abs(T).max(), 1e-300) if np.isfinite(T).all() else float("nan")
+    if not nds or not np.isfinite(T).all():
+        acc.upd("T-row-live", float("nan"), TOL_ROW_LIVE, {"run": tag, "n_dof_allowed": nds, "T_finite": bool(np.isfinite(T).all())})
+        nds = nds or [1.0]
     acc.upd("T-row-live", min(np.abs(2.0 * Ek * live["TEMPERATURE_SCALE"] / nd - T).max() / sT for nd in nds), TOL_ROW_LIVE,
             {"run": tag, "n_dof_allowed": nds})
     acc.upd("T-row-codata", min(np.abs(2.0 * ek_amu * md.REF_KE_SCALE * md.REF_TEMP_SCALE / nd - T).max() / sT for nd in nds),
@@ -361,7 +396,8 @@ def _family(case):
         # independent single points on the second-coarsest run
         dt_sp = case["dts"][min(1, len(case["dts"]) - 1)]
         n, r = recs[dt_sp]
-        _check_sp(acc, r["h5"][k], Zr, sett, sorted({0, n // 3, n}), "mol%d/dt%g" % (k, dt_sp))
+        sp_steps = sorted({0, n // 3, n}) if not case.get("sp_every") else sorted(set(range(0, n + 1, int(case["sp_every"]))) | {n})
+        _check_sp(acc, r["h5"][k], Zr, sett, sp_steps, "mol%d/dt%g" % (k, dt_sp))
         # (c) order
         xe = []
         for dt in case["dts"]:
@@ -369,7 +405,7 @@ def _family(case):
             xe.append(xx - md.com(mm, xx))
         diffs = [float(np.linalg.norm(xe[i] - xe[i + 1])) for i in range(len(xe) - 1)]
         for i in range(len(diffs) - 1):
-            if diffs[i + 1] < 1e-7:
+            if diffs[i + 1] < 1e-7:  # (NaN is not < 1e-7: it goes on and violates the window)
                 continue
             ratio = diffs[i] / diffs[i + 1]
             acc.window("order", ratio, ORDER_LO, ORDER_HI, {"mol": k, "dts": case["dts"][i:i + 3], "diffs": diffs[i:i + 2]})
@@ -394,7 +430,7 @@ def _family(case):
             noise = 100 * EPS * (len(Es[i + 1]) - 1)
             frac = RESID_K * dtc * dtc
             det = {"mol": k, "dts": [dtc, dtf], "scale_dt2": scale, "allowed_fraction": frac}
-            if devf.std() > 10 * noise:
+            if not (devf.std() <= 10 * noise):
                 acc.window("energy-std-scaling", float(devc.std() / devf.std()), STD_LO, STD_HI, det)
                 acc.mon["energy_ratios"] += 1
             r = (4.0 * devf - devc) / 3.0
@@ -496,6 +532,100 @@ def _fresh(case):
     return acc.result(good > 0, obs)
 
 
+def _continue(case):
+    """run A -> the state is changed WITHOUT an MD step (surface switch + esdriver call, geometry displaced + esdriver call,
+    geometry displaced + force = None) -> run B on the SAME Molecule, which carries non-zero velocities.  Run B must be an
+    ordinary velocity-Verlet run from its own step-0 state: recurrences on its first rows with ITS stored forces, agreement
+    with a fresh Molecule started from the same (x, v) on the same surface, second order under dt halving."""
+    import torch
+    from vlib import env, md, run
+
+    acc = _Acc(case)
+    g = np.random.default_rng(case["geom_seed"])
+    Z, X, q, m = gen.molecule(case["mol"])
+    X = gen.distort(X, g, sigma=0.03)
+    X = X @ gen.generic_rotation(X, g).T
+    V = md.supplied_velocities(Z, X, case["T"], g)
+    delta = g.normal(0.0, 0.02, X.shape)
+    mod = case["mod"]
+    exc = {"n_states": 3, "tolerance": CIS_TOL, "method": "cis"} if mod == "switch-state" else None
+    settA = run.settings(case["method"], eps=EPS, converger=(2,), excited=exc)
+    settF = run.settings(case["method"], eps=EPS, converger=(2,), excited=exc, active_state=1 if exc else 0)
+    recs = {}
+    start = None
+    try:
+        with env.Scratch("c08") as d, md.quiet():
+            for dt in case["dts"]:
+                n = int(round(case["t_end"] / dt))
+                mol, mdA = md.build_md("basic", Z, X, settA, case["dtA"], case["T"], md.output_cfg("%s/A%g" % (d, dt), [0]), velocities=V)
+                mdA.run(mol, steps=case["nA"], reuse_P=True, remove_com=None, seed=1)
+                acc.mon["md_runs"] += 1
+                if mod == "switch-state":
+                    mol.active_state = 1
+                    mdA.esdriver(mol, P0=mol.dm, cis_amp=mol.cis_amplitudes)
+                else:
+                    with torch.no_grad():
+                        mol.coordinates.add_(torch.as_tensor(delta).unsqueeze(0))
+                    if mod == "displace-esdriver":
+                        mdA.esdriver(mol, P0=mol.dm, cis_amp=mol.cis_amplitudes)
+                    else:
+                        mol.force = None
+                x0 = mol.coordinates.detach().cpu().numpy()[0].copy()
+                v0 = mol.velocities.detach().cpu().numpy()[0].copy()
+                if start is None:
+                    start = (x0, v0)
+                elif not (np.array_equal(start[0], x0) and np.array_equal(start[1], v0)):
+                    return {"inconclusive": "run A is not reproducible: the dt-family of run B would not share its start"}
+                mdB = md.make_engine("basic", mol.seqm_parameters, dt, case["T"], md.output_cfg("%s/B%g" % (d, dt), [0]))
+                mdB.run(mol, steps=n, reuse_P=True, remove_com=None)
+                acc.mon["md_runs"] += 1
+                recs[dt] = (n, md.read_h5("%s/B%g.0.h5" % (d, dt)))
+            dt0 = case["dts"][0]
+            n0 = recs[dt0][0]
+            molF, mdF = md.build_md("basic", Z, start[0], settF, dt0, case["T"], md.output_cfg(d + "/F", [0]), velocities=start[1])
+            mdF.run(molF, steps=n0, reuse_P=True, remove_com=None)
+            acc.mon["md_runs"] += 1
+            hF = md.read_h5(d + "/F.0.h5")
+    except Exception as exc_:
+        return {"inconclusive": "continuation sequence raised: %s: %s" % (type(exc_).__name__, str(exc_)[:300])}
+    mm = md.masses(Z)
+    ok = True
+    for dt in case["dts"]:
+        n, h = recs[dt]
+        okk = _check_run(acc, h, Z, dt, n, None, case["t_end"], "B/dt%g" % dt)
+        ok &= okk
+        if okk:
+            # step 0 of run B is the state the Molecule carried (velocities are not redrawn, geometry not moved)
+            acc.upd("continue-step0", max(np.abs(h["coordinates"][0] - start[0]).max(), np.abs(h["velocities"][0] - start[1]).max()), 1e-15,
+                    {"dt": dt, "mod": mod})
+    obs = {"mod": mod}
+    if ok:
+        n0, h0 = recs[case["dts"][0]]
+        dx = float(np.abs(h0["coordinates"] - hF["coordinates"]).max())
+        dv = float(np.abs(h0["velocities"] - hF["velocities"]).max())
+        acc.upd("continue-vs-fresh-x", dx, TOL_REV_X, {"mod": mod, "dt": case["dts"][0]})
+        acc.upd("continue-vs-fresh-v", dv, TOL_REV_X, {"mod": mod, "dt": case["dts"][0]})
+        dE = float(np.abs((h0["Ek"] + h0["Ep"]) - (hF["Ek"] + hF["Ep"])).max())
+        acc.upd("continue-vs-fresh-E", dE, 1e-7 + 20 * EPS, {"mod": mod})
+        _check_sp(acc, h0, Z, settF, [0, n0], "B/dt%g" % case["dts"][0])
+        xe = []
+        for dt in case["dts"]:
+            xx = recs[dt][1]["coordinates"][-1]
+            xe.append(xx - md.com(mm, xx))
+        diffs = [float(np.linalg.norm(xe[i] - xe[i + 1])) for i in range(len(xe) - 1)]
+        for i in range(len(diffs) - 1):
+            if diffs[i + 1] < 1e-7:
+                continue
+            ratio = diffs[i] / diffs[i + 1]
+            acc.window("order", ratio, ORDER_LO, ORDER_HI, {"kind": "continue", "mod": mod, "dts": case["dts"][i:i + 3], "diffs": diffs[i:i + 2]})
+            acc.mon["order_ratios"] += 1
+            obs["order/%g" % case["dts"][i]] = round(ratio, 4)
+        obs.update({"dx_vs_fresh": dx, "dv_vs_fresh": dv})
+        acc.mon["continuations"] += 1
+        acc.cells.append("continue/%s/%s/%s" % (case["method"], case["mol"], mod))
+    return acc.result(ok, obs)
+
+
 def _momentum(case):
     """supplied velocities WITH net angular (or net linear) momentum, each COM-removal mode judged against what THAT mode
     is documented to do: None conserves P and L; ('linear', n) zeroes P and must not touch L; ('angular', n) zeroes both."""
@@ -533,12 +663,12 @@ def _momentum(case):
                 Zr = Zs[k]
                 mm = md.masses(Zr)
                 x, v = h["coordinates"], h["velocities"]
-                if len(x) != n + 1 or not np.array_equal(x[0], np.asarray(C[k])[:len(Zr)]) or not np.array_equal(v[0], V[k][:len(Zr)]):
+                if len(x) != n + 1 or not (np.isfinite(x).all() and np.isfinite(v).all()) or not np.array_equal(x[0], np.asarray(C[k])[:len(Zr)]) or not np.array_equal(v[0], V[k][:len(Zr)]):
                     acc.upd("momentum-rows", 1.0, 0.5, {"mode": mode, "mol": k, "what": "rows missing or step 0 is not the supplied state"})
                     continue
                 PL = [md.momenta(mm, x[s_], v[s_]) for s_ in range(n + 1)]
                 sc = [md.momentum_scales(mm, x[s_], v[s_]) for s_ in range(n + 1)]
-                ps, ls = max(a for a, _ in sc), max(b for _, b in sc)
+                ps, ls = _mx(a for a, _ in sc), _mx(b for _, b in sc)
                 w = np.linalg.eigvalsh(md.inertia(mm, x[0] - md.com(mm, x[0])))
                 w = w[w > 1e-10]
                 f = 1e-12 + 16.0 * eps_m * float(w.max() / w.min())
@@ -551,21 +681,21 @@ def _momentum(case):
                     acc.mon["net_L_files"] += 1
                 if relP0 > 1e-2:
                     acc.mon["net_P_files"] += 1
-                dP = max(np.abs(p[0] - P0).max() for p in PL)
-                dL = max(np.abs(p[1] - L0).max() for p in PL)
+                dP = _mx(np.abs(p[0] - P0).max() for p in PL)
+                dL = _mx(np.abs(p[1] - L0).max() for p in PL)
                 first = 1  # first row written after a due removal (the removal of loop index i = 0)
                 if rc is None:
                     acc.upd("P-conservation", dP, TOL_P * ps, dict(det, scale=ps))
                     acc.upd("L-conservation", dL, tolL, dict(det, scale=ls), mech=_pole_mech(Zr, x) if dL > tolL else None)
                 elif rc[0] == "linear":
-                    Pmax = max(np.abs(p[0]).max() for p in PL[first:])
+                    Pmax = _mx(np.abs(p[0]).max() for p in PL[first:])
                     acc.upd("com-linear-zeroes-P", Pmax, (f + TOL_P) * ps, dict(det, scale=ps))
                     # v -= v_com does not change L about the centre of mass; the kinetic-energy rescale multiplies it by
                     # alpha, which is 1 unless net P was present (then L0 ~ 0 in this workload): L must stay what it was
                     acc.upd("com-linear-keeps-L", dL, tolL + f * ls, dict(det, scale=ls, L_end_rel=float(np.abs(PL[-1][1]).max() / ls)))
                 else:
-                    Pmax = max(np.abs(p[0]).max() for p in PL[first:])
-                    Lmax = max(np.abs(p[1]).max() for p in PL[first:])
+                    Pmax = _mx(np.abs(p[0]).max() for p in PL[first:])
+                    Lmax = _mx(np.abs(p[1]).max() for p in PL[first:])
                     acc.upd("com-angular-zeroes-P", Pmax, (f + TOL_P) * ps, dict(det, scale=ps))
                     acc.upd("com-angular-zeroes-L", Lmax, f * ls + tolL, dict(det, scale=ls))
                 # bookkeeping of that file
@@ -605,6 +735,8 @@ def run_case(case):
         return _fresh(case)
     if kind == "momentum":
         return _momentum(case)
+    if kind == "continue":
+        return _continue(case)
     if kind == "constants":
         return _constants(case)
     raise ValueError(kind)
